@@ -184,10 +184,14 @@ def run(ctx):
                  dict(shape='register_callback: plain parameter (last)', program='tn<int> f(sbx_t&, tn<int>, int); sb.register_callback(f);', oracle='must be rejected'),
                  dict(shape='invoke argument <- matching sandbox_callback', oracle='positive control: must be accepted')]
     # (b) run-time entry points
-    specs = [('c02_mask', 'c02.cpp', dict(opt='-O1')), ('c02_reg', 'c02.cpp', dict(opt='-O1', defs=['C02_MODE=REGISTRY']))]
+    specs = [('c02_mask', 'c02.cpp', dict(opt='-O1')), ('c02_reg', 'c02.cpp', dict(opt='-O1', defs=['C02_MODE=REGISTRY'])),
+             # aborts as exceptions: a refused raw pointer must not already be in the cell / the tainted when the refusal surfaces
+             ('c02_exc_mask', 'c02.cpp', dict(opt='-O1', defs=['C02_EXC'])), ('c02_exc_reg', 'c02.cpp', dict(opt='-O1', defs=['C02_EXC', 'C02_MODE=REGISTRY']))]
     bins = ctx.build_many(specs)
     ctx.run(bins['c02_mask'])
     ctx.run(bins['c02_reg'])
+    ctx.run(bins['c02_exc_mask'], parts=1)
+    ctx.run(bins['c02_exc_reg'], parts=1)
     ctx.extra_cov['programs'] = len(jobs) * len(compilers)
 
 
